@@ -135,7 +135,8 @@ fn c05_server(case: &Case) {
     let big = simkernel::choose(3) == 0;
     let sizes: Vec<usize> = (0..n).map(|_| if big { pick(&[8191usize, 8192, 8193, 20_000, 40_000]) } else { pick(&[0usize, 1, 100, 1000, 3000]) }).collect();
     let stall_after = pick(&[0usize, 20, 48, 500, 9_000]);
-    let stall_ms = pick(&[0u64, 2, 10, 100, 1_000]);
+    let between = write_timeout.map(|d| d.as_millis() as u64 * 3 / 2).unwrap_or(7).max(2); // between one and two write timeouts
+    let stall_ms = pick(&[0u64, 2, 10, 100, 1_000, between, between]);
     case.sample(json!({"requests": n, "sizes": sizes, "capacity": capacity, "server_write_timeout_ms": write_timeout.map(|d| d.as_millis() as u64), "client_stalls_after_bytes": stall_after, "stall_ms": stall_ms}));
     let Ok(s) = TcpStream::connect(addr) else {
         case.harness_error("connect");
